@@ -8,11 +8,18 @@ slice of every variant is a slice of the ORIGINAL file (lies within it, literal 
 Specification (from the property text and the function's docstring, not from its body):
     length_deltas = {idx: new_len - old_len} keyed by the ORIGINAL source index of each overridden tag.
     shift(d, q)   = total length change of the overridden tags that start strictly before original position q.
-    The original position q corresponds to the modified position q + shift(d, q).
+    The original position q corresponds to the modified position q + shift(d, q); tag x starts at x + shift(d, x) there.
     result[i] keeps slice_type and templated_slice; its source_slice (a, b) satisfies
         a + shift(d, a) == input[i].source_slice.start      b + shift(d, b) == input[i].source_slice.stop
-    (for a slice that IS an overridden tag, b is the end of the original tag: shift(d, b) already contains the tag's own delta),
-    slices stay ordered, keep their length unless they are an overridden tag (then the length changes by -delta), gaps keep their size.
+    and each boundary lies behind the start of a modified tag exactly when its image lies behind the start of the original tag
+    (this second clause makes the image unique: inside a tag that shrank, several positions satisfy the first).
+Precondition (what the function needs; no ordering of the slices, loops may revisit positions, tags need not be reached):
+    keys >= 0; the modified tags keep their order (x < y => x + shift(d, x) < y + shift(d, y): new tags are not empty and original
+    tags do not overlap); no slice boundary p falls in the part (m, m + delta] of a modified tag starting at m that has no
+    counterpart in the original (implied by: no boundary strictly inside a modified tag, original tags not empty).
+
+(Function body as of /repo b1b8665: loop 1 builds the modified tag positions from the sorted deltas, loop 2 maps every boundary by
+ p - sum(d for pos, d in modified_tags if pos < p).)
 """
 from pyvc.dsl import contract, spec, lemma, implies
 from pyvc.ty import INT, BOOL, TList, TTuple, TDict
@@ -21,6 +28,7 @@ from .types import TemplatedFileSlice
 
 PROP = "C07"
 KEY = "sqlfluff.core.templaters.jinja:JinjaTemplater._rectify_templated_slices"
+TAGS = TList(TTuple(INT, INT))
 
 
 # ------------------------------------------------------------------ specification vocabulary
@@ -37,47 +45,63 @@ def no_key_in(d, a, b):
 
 
 @spec
-def ordered(sf):
-    """source slices are well-formed and in order (pairwise, not only adjacent)"""
-    return (all(sf[i].source_slice.start <= sf[i].source_slice.stop for i in range(len(sf)))
-            and all(sf[i].source_slice.stop <= sf[j].source_slice.start for i in range(len(sf)) for j in range(i + 1, len(sf))))
+def tags_keep_order(d) -> BOOL:
+    """the modified tags come in the order of the original ones (new tags not empty, original tags do not overlap)"""
+    return all(implies(x < y, x + shift(d, x) < y + shift(d, y)) for x in d.keys() for y in d.keys())
 
 
 @spec
-def gaps_kept(rs, sf, n):
-    """the gap between consecutive slices (0 when they are contiguous) is the same in both lists, for the first n slices
-    (written over pairs (i, j = i + 1): no `i + 1` index term, which would make the quantifier instantiate itself for ever)"""
-    return all(implies(j == i + 1, rs[j].source_slice.start - rs[i].source_slice.stop
-                       == sf[j].source_slice.start - sf[i].source_slice.stop)
-               for i in range(n) for j in range(i + 1, n))
+def outside_stretch(d, p) -> BOOL:
+    """position p of the modified template is not in (m, m + delta] for a modified tag starting at m"""
+    return all(implies(x + shift(d, x) < p, p > x + shift(d, x) + d.get(x, 0)) for x in d.keys())
 
 
 @spec
-def tag_hit(d, sf, x, i):
-    """slice i of the modified template IS the overridden tag whose original index is x: it starts at the tag's modified position,
-    the new tag and the original tag are not empty, and no other overridden tag starts inside the original tag"""
-    return (sf[i].source_slice.start == x + shift(d, x)
-            and sf[i].source_slice.stop - sf[i].source_slice.start >= 1
-            and sf[i].source_slice.stop - sf[i].source_slice.start - d.get(x, 0) >= 1
-            and no_key_in(d, x + 1, x + sf[i].source_slice.stop - sf[i].source_slice.start - d.get(x, 0)))
+def image_of(d, p, q) -> BOOL:
+    """original position q is THE image of position p of the modified template"""
+    return (q + shift(d, q) == p
+            and all((x + shift(d, x) < p) == (x < q) for x in d.keys()))
+
+
+# ------------------------------------------------------------------ vocabulary of the proof (the code's intermediate values)
+@spec(recursive=True)
+def msum(tags: TAGS, n: INT, p: INT) -> INT:
+    """sum(d for pos, d in tags[:n] if pos < p): the engine replaces the code's `sum(...)` by msum(tags, len(tags), p) after
+    checking (obligations sum-model[msum.base / msum.step]) that msum satisfies the recurrences of that sum"""
+    return 0 if n <= 0 else msum(tags, n - 1, p) + (tags[n - 1][1] if tags[n - 1][0] < p else 0)
 
 
 @spec
-def every_tag_hit_once(d, sf) -> BOOL:
-    """what the caller establishes for a template without loops: each overridden tag is one slice of the modified template's trace,
-    and nothing else (no zero-length slice) starts at the tag's position"""
-    return (all(any(tag_hit(d, sf, x, i) for i in range(len(sf))) for x in d.keys())
-            and all(implies(sf[j].source_slice.start == x + shift(d, x), sf[j].source_slice.stop > sf[j].source_slice.start)
-                    for x in d.keys() for j in range(len(sf))))
+def is_items(D, d):
+    """D = sorted(d.items()): entries of the dict, strictly increasing keys, every key present"""
+    return (all(D[k][0] in d and d.get(D[k][0], 0) == D[k][1] for k in range(len(D)))
+            and all(D[j][0] < D[k][0] for j in range(len(D)) for k in range(j + 1, len(D)))
+            and all(any(D[k][0] == x for k in range(len(D))) for x in d.keys()))
 
 
-# NOTE on the proof: `every_tag_hit_once` quantifies over the keys of the dict and mentions shift(d, key).  Next to the recursive
-# definition of `shift` this feeds z3's instantiation for ever (each unfolding of `shift` tests membership of one more position,
-# which instantiates the precondition at that position, which mentions `shift` again), and left open among the hypotheses of the
-# loop body it makes even the trivial ordering obligations unstable.  So the verification conditions of the FUNCTION see both
-# `shift` and `every_tag_hit_once` as UNINTERPRETED symbols (opts abstract_specs; no axiom is assumed about them): every fact
-# about them comes from an instance of one of the lemmas below, which are proved against the definitions (L_next_tag opens the
-# precondition and uses L_const for `shift`).
+@spec
+def tags_of(M, D, d, n):
+    """the first n modified tags: position in the modified template, delta"""
+    return all(M[k][0] == D[k][0] + shift(d, D[k][0]) and M[k][1] == D[k][1] for k in range(n))
+
+
+@spec
+def bound(D, n):
+    """the key of D[n], or a position behind every key"""
+    return D[n][0] if n < len(D) else (D[len(D) - 1][0] + 1 if len(D) > 0 else 0)
+
+
+@spec
+def walk_ok(d, D, M, p):
+    """premises of the lemmas about msum"""
+    return (all(x >= 0 for x in d.keys()) and is_items(D, d) and len(M) == len(D) and tags_of(M, D, d, len(D))
+            and all(M[j][0] < M[k][0] for j in range(len(M)) for k in range(j + 1, len(M)))
+            and all(implies(M[k][0] < p, p > M[k][0] + M[k][1]) for k in range(len(M))))
+
+
+# NOTE on the proof: in the verification conditions of the FUNCTION (and of L_key / L_final) `shift` (and `msum`) are UNINTERPRETED
+# symbols (opts abstract_specs; nothing is assumed about them): next to the key-quantified precondition the recursive definitions
+# feed z3's instantiation for ever.  Every fact about them comes from an instance of a lemma below, proved against the definitions.
 # ------------------------------------------------------------------ lemmas
 @lemma(props=(PROP,))
 def L_zero(d: TDict(INT, INT), q: INT):
@@ -98,100 +122,84 @@ def L_after_tag(d: TDict(INT, INT), x: INT, b: INT):
     return implies(x >= 0 and b >= x + 1 and no_key_in(d, x + 1, b), shift(d, b) == shift(d, x) + d.get(x, 0))
 
 
-@lemma(unfold=lambda d, sf, i, c, cur, x: L_const(d, cur, x), props=(PROP,))
-def L_next_tag(d: TDict(INT, INT), sf: TList(TemplatedFileSlice), i: INT, c: INT, cur: INT, x: INT):
-    """the walk is in step with the tags: slices 0..i-1 are done, `cur` is the original position reached, c = -shift(d, cur) the
-    carried delta, x the first overridden tag at or behind cur.  Then the next slice does not start behind x (in original
-    coordinates), and either it IS the tag x or it ends before x."""
-    return implies(all(k >= 0 for k in d.keys()) and ordered(sf) and every_tag_hit_once(d, sf)
-                   and 0 <= i < len(sf) and cur == (0 if i == 0 else sf[i - 1].source_slice.stop + c)
-                   and c == 0 - shift(d, cur) and x in d and x >= cur and no_key_in(d, cur, x),
-                   x >= sf[i].source_slice.start + c
-                   and (tag_hit(d, sf, x, i) if x == sf[i].source_slice.start + c else x >= sf[i].source_slice.stop + c))
+@lemma(measure=lambda d, D, M, n, p: n,
+       hyps=lambda d, D, M, n, p: ((d, D, M, n - 1, p),),
+       unfold=lambda d, D, M, n, p: (L_zero(d, 0) and L_const(d, 0, bound(D, 0))
+                                     and L_after_tag(d, D[n - 1][0], bound(D, n))
+                                     and L_const(d, p - msum(M, n, p), D[n - 1][0])),
+       props=(PROP,))
+def L_key(d: TDict(INT, INT), D: TAGS, M: TAGS, n: INT, p: INT):
+    """the partial sums of the code against the shift (induction on the number of tags looked at): as long as the tags start
+    before p the sum is the shift at the next key; from the first tag that does not, it is the shift at p's image"""
+    return implies(walk_ok(d, D, M, p) and 0 <= n <= len(M),
+                   (msum(M, n, p) == shift(d, bound(D, n)) if (n == 0 or M[n - 1][0] < p)
+                    else msum(M, n, p) == shift(d, p - msum(M, n, p)))
+                   and all((M[k][0] < p) == (D[k][0] < p - msum(M, n, p)) for k in range(n)))
 
 
-L_next_tag.opts = {"abstract_specs": ["shift"]}     # needs L_const(d, cur, x) only (given by `unfold`), not the definition
+@lemma(unfold=lambda d, D, M, p: (L_key(d, D, M, len(M), p) and L_zero(d, 0) and L_zero(d, p - msum(M, len(M), p))
+                                  and L_const(d, bound(D, len(D)), p - msum(M, len(M), p))),
+       props=(PROP,))
+def L_final(d: TDict(INT, INT), D: TAGS, M: TAGS, p: INT):
+    """what the code subtracts at position p is the shift at p's image, and the image is behind exactly the tags p is behind"""
+    return implies(walk_ok(d, D, M, p),
+                   msum(M, len(M), p) == shift(d, p - msum(M, len(M), p))
+                   and all((M[k][0] < p) == (D[k][0] < p - msum(M, len(M), p)) for k in range(len(M))))
+
+
+L_key.opts = {"abstract_specs": ["shift"]}
+L_final.opts = {"abstract_specs": ["shift", "msum"]}
 
 
 # ------------------------------------------------------------------ the contract
 @contract(KEY, PROP)
 class rectify_templated_slices:
     types = {"length_deltas": TDict(INT, INT), "sliced_template": TList(TemplatedFileSlice),
-             "delta_stack": TList(TTuple(INT, INT)), "adjusted_slices": TList(TemplatedFileSlice),
-             "carried_delta": INT, "idx": INT, "d": INT}
+             "modified_tags": TAGS, "adjusted_slices": TList(TemplatedFileSlice),
+             "carried_delta": INT, "idx": INT, "d": INT, "start": INT, "stop": INT}
     ret = TList(TemplatedFileSlice)
-    # on the unchanged function every obligation is discharged in well under a second; the budget below only caps the cost of a
+    # on the unchanged function every obligation is discharged in about a second; the budget below only caps the cost of a
     # COLLAPSED proof (a changed function): 4 s, then 12 s, then 40 s on a busy machine, per obligation, at most 3 undecided per shard
-    opts = {"abstract_specs": ["shift", "every_tag_hit_once"], "max_unknown": 3, "timeout_ms": 4000}
+    opts = {"abstract_specs": ["shift", "msum"], "sum_models": [msum], "max_unknown": 3, "timeout_ms": 4000}
 
     def requires(length_deltas, sliced_template):
         return (all(x >= 0 for x in length_deltas.keys())
-                and ordered(sliced_template)
-                and all(sliced_template[i].source_slice.start >= 0 for i in range(len(sliced_template)))
-                and every_tag_hit_once(length_deltas, sliced_template))
+                and tags_keep_order(length_deltas)
+                and all(outside_stretch(length_deltas, sliced_template[i].source_slice.start)
+                        and outside_stretch(length_deltas, sliced_template[i].source_slice.stop)
+                        for i in range(len(sliced_template))))
 
     def ensures(length_deltas, sliced_template, result):
         return (len(result) == len(sliced_template)
                 and all(result[i].slice_type == sliced_template[i].slice_type
                         and result[i].templated_slice == sliced_template[i].templated_slice
                         # the positions are positions of the ORIGINAL file
-                        and result[i].source_slice.start + shift(length_deltas, result[i].source_slice.start)
-                        == sliced_template[i].source_slice.start
-                        and result[i].source_slice.stop + shift(length_deltas, result[i].source_slice.stop)
-                        == sliced_template[i].source_slice.stop
-                        # an overridden tag gets its original length back; every other slice keeps its length
-                        and (result[i].source_slice.stop - result[i].source_slice.start
-                             == sliced_template[i].source_slice.stop - sliced_template[i].source_slice.start
-                             - length_deltas.get(result[i].source_slice.start, 0))
-                        for i in range(len(result)))
-                and ordered(result)
-                # gaps between consecutive slices keep their size (contiguity is preserved)
-                and gaps_kept(result, sliced_template, len(result)))
+                        and image_of(length_deltas, sliced_template[i].source_slice.start, result[i].source_slice.start)
+                        and image_of(length_deltas, sliced_template[i].source_slice.stop, result[i].source_slice.stop)
+                        for i in range(len(result))))
 
-    def inv_1(length_deltas, sliced_template, delta_stack, adjusted_slices, carried_delta, _i, _iter):
-        cur = 0 if _i == 0 else _iter[_i - 1].source_slice.stop + carried_delta
-        n = len(delta_stack)
-        return (_iter == sliced_template and len(adjusted_slices) == _i
-                and carried_delta == (0 if _i == 0 else 0 - shift(length_deltas, cur))
-                # the stack: items of the dict, strictly increasing keys
-                and all(delta_stack[a][0] in length_deltas and length_deltas.get(delta_stack[a][0], 0) == delta_stack[a][1]
-                        for a in range(n))
-                and all(delta_stack[a][0] < delta_stack[b][0] for a in range(n) for b in range(a + 1, n))
-                # every key of the dict at or after the current original position is on the stack
-                and implies(n > 0, delta_stack[0][0] >= cur)
-                and all(x < cur or (n > 0 and x >= delta_stack[0][0]) for x in length_deltas.keys())
-                and all(implies(b == a + 1, not (delta_stack[a][0] < x < delta_stack[b][0]))
-                        for x in length_deltas.keys() for a in range(n) for b in range(a + 1, n))
-                and all(implies(n > 0, x <= delta_stack[n - 1][0]) for x in length_deltas.keys())
-                # the postcondition for the slices processed so far
-                and implies(_i > 0, adjusted_slices[_i - 1].source_slice.stop == cur)
+    def inv_1(length_deltas, modified_tags, carried_delta, _i, _iter):
+        return (is_items(_iter, length_deltas) and len(modified_tags) == _i
+                and tags_of(modified_tags, _iter, length_deltas, _i)
+                and carried_delta == (0 if _i == 0 else (shift(length_deltas, _iter[_i][0]) if _i < len(_iter) else carried_delta)))
+
+    def hint_inv_1(length_deltas, _i, _iter):
+        return (L_zero(length_deltas, 0) and L_const(length_deltas, 0, _iter[0][0])
+                and L_after_tag(length_deltas, _iter[_i][0], _iter[_i + 1][0]))
+
+    def inv_2(length_deltas, sliced_template, modified_tags, adjusted_slices, _i, _iter, _iter1):
+        return (is_items(_iter1, length_deltas) and len(modified_tags) == len(_iter1)
+                and tags_of(modified_tags, _iter1, length_deltas, len(_iter1))
+                and _iter == sliced_template and len(adjusted_slices) == _i
                 and all(adjusted_slices[i].slice_type == _iter[i].slice_type
                         and adjusted_slices[i].templated_slice == _iter[i].templated_slice
-                        and adjusted_slices[i].source_slice.start + shift(length_deltas, adjusted_slices[i].source_slice.start)
-                        == _iter[i].source_slice.start
-                        and adjusted_slices[i].source_slice.stop + shift(length_deltas, adjusted_slices[i].source_slice.stop)
-                        == _iter[i].source_slice.stop
-                        and (adjusted_slices[i].source_slice.stop - adjusted_slices[i].source_slice.start
-                             == _iter[i].source_slice.stop - _iter[i].source_slice.start
-                             - length_deltas.get(adjusted_slices[i].source_slice.start, 0))
-                        for i in range(_i))
-                and ordered(adjusted_slices)
-                and gaps_kept(adjusted_slices, _iter, _i))
+                        and image_of(length_deltas, _iter[i].source_slice.start, adjusted_slices[i].source_slice.start)
+                        and image_of(length_deltas, _iter[i].source_slice.stop, adjusted_slices[i].source_slice.stop)
+                        for i in range(_i)))
 
-    def hint_inv_1(length_deltas, delta_stack, carried_delta, _i, _iter):
-        """lemma instances at the loop head (cur = the original position reached): shift is constant from cur to the start and to
-        the stop of the next slice when no tag starts there; the next tag on the stack against the next slice; the shift behind it"""
-        return (L_zero(length_deltas, 0)
-                and L_const(length_deltas, (0 if _i == 0 else _iter[_i - 1].source_slice.stop + carried_delta),
-                            _iter[_i].source_slice.start + carried_delta)
-                and L_const(length_deltas, (0 if _i == 0 else _iter[_i - 1].source_slice.stop + carried_delta),
-                            _iter[_i].source_slice.stop + carried_delta)
-                and implies(len(delta_stack) > 0,
-                            L_next_tag(length_deltas, _iter, _i, carried_delta,
-                                       (0 if _i == 0 else _iter[_i - 1].source_slice.stop + carried_delta), delta_stack[0][0]))
-                and implies(len(delta_stack) > 0,
-                            L_after_tag(length_deltas, delta_stack[0][0],
-                                        _iter[_i].source_slice.stop + carried_delta - delta_stack[0][1])))
+    def hint_inv_2(length_deltas, modified_tags, _i, _iter, _iter1):
+        return (L_final(length_deltas, _iter1, modified_tags, _iter[_i].source_slice.start)
+                and L_final(length_deltas, _iter1, modified_tags, _iter[_i].source_slice.stop))
 
 
 # ===================================================================================================== BOUNDED (labelled; not proofs)
@@ -257,9 +265,8 @@ def _layout_case(layout):
 
 def rectify_generated_layouts(tier, seed):
     """BOUNDED: the real _rectify_templated_slices on generated layouts (an original file cut into slices, some of them overridden
-    tags with other lengths): (1) the executable contract above (requires => ensures), (2) the result IS the original layout."""
-    import itertools
-    import random
+    tags with other lengths; the slices also repeated / reordered, as a trace with loops does): (1) the executable contract above
+    (requires => ensures), (2) the result IS the original layout, slice by slice."""
     import time
     t0 = time.time()
     with _fast_shift():
@@ -278,18 +285,22 @@ def _rectify_generated_layouts(tier, seed, t0):
     pieces = plain + tags
     max_exact = 4 if tier == "thorough" else 3
     n_random = 40000 if tier == "thorough" else 1500
-    stats = {"evaluations": 0, "admissible": 0, "with_two_or_more_tags": 0, "pre_false": 0}
+    stats = {"evaluations": 0, "admissible": 0, "with_two_or_more_tags": 0, "reordered_or_partial": 0, "pre_false": 0}
     fails = {}
 
-    def one(layout):
+    def one(layout, order=None):
         deltas, modified, original = _layout_case(layout)
+        if order is not None:
+            # the trace of a variant need not visit the slices once and in order (loops), nor reach every modified tag
+            modified, original = [modified[k] for k in order], [original[k] for k in order]
+            stats["reordered_or_partial"] += 1
         stats["evaluations"] += 1
         try:
             pre = bool(c.requires(deltas, modified))
         except Exception:
             pre = False
         if not pre:
-            stats["pre_false"] += 1     # e.g. a zero-length slice right at a tag's position
+            stats["pre_false"] += 1
             return
         stats["admissible"] += 1
         stats["with_two_or_more_tags"] += len(deltas) >= 2
@@ -312,25 +323,32 @@ def _rectify_generated_layouts(tier, seed, t0):
             fid = f"C07/rectify/generated-layouts/{cname}"
             cur = fails.get(fid)
             if cur is None or len(layout) < len(cur["layout"]):
-                fails[fid] = {"layout": layout, "why": why, "length_deltas": deltas,
+                fails[fid] = {"layout": layout, "order": order, "why": why, "length_deltas": deltas,
                               "sliced_template": [(x.slice_type, x.source_slice.start, x.source_slice.stop) for x in modified],
                               "result": None if res is None else [(x.source_slice.start, x.source_slice.stop) for x in res],
                               "expected": [(x.source_slice.start, x.source_slice.stop) for x in original]}
     for n in range(0, max_exact + 1):
         for layout in itertools.product(pieces, repeat=n):
             one(layout)
+            if n >= 2:
+                one(layout, list(range(n - 1, -1, -1)))              # backwards
+                one(layout, [0] + list(range(2, n)) + [1, 0])        # slice 1 moved, slice 0 revisited
+                one(layout, list(range(1, n)))                       # the first slice (maybe a modified tag) never reached
     for _ in range(n_random):
-        one(tuple(rng.choice(pieces) if rng.random() < 0.6 else
-                  (rng.choice((0, 0, 1, 5)), rng.choice(("literal", "templated", "t", "t")), rng.randint(1, 30), rng.randint(1, 30))
-                  for _ in range(rng.randint(max_exact + 1, 9))))
+        lay = tuple(rng.choice(pieces) if rng.random() < 0.6 else
+                    (rng.choice((0, 0, 1, 5)), rng.choice(("literal", "templated", "t", "t")), rng.randint(1, 30), rng.randint(1, 30))
+                    for _ in range(rng.randint(max_exact + 1, 9)))
+        one(lay, None if rng.random() < 0.5 else [rng.randrange(len(lay)) for _ in range(rng.randint(0, 12))])
     failed = [{"name": fid, "id": fid, "kind": "bounded", "status": "failed", "function": KEY, "detail": d, "reproduced": True}
               for fid, d in sorted(fails.items())]
     return dict({"name": "rectify-generated-layouts",
                  "bound": f"all layouts of <= {max_exact} pieces over {len(pieces)} pieces (literal slices of length 0/1/3, overridden tags with "
-                          f"(old, new) lengths (1,1) (1,4) (5,2) (2,3) (9,4) (3,11), gaps 0/1/2) + {n_random} seeded layouts of up to 9 pieces",
+                          f"(old, new) lengths (1,1) (1,4) (5,2) (2,3) (9,4) (3,11), gaps 0/1/2), each in order and in 3 other orders "
+                          f"(backwards, with a revisit, without the first slice) + {n_random} seeded layouts of up to 9 pieces, half of "
+                          "them as a random sequence of up to 12 of their slices",
                  "rule": "one evaluation = one call of the real function on a generated (length_deltas, sliced_template); judged by the "
-                         "executable contract of contracts/c07_rectify.py and by equality with the original layout; layouts that do not "
-                         "satisfy `requires` (a zero-length slice at a tag's position) are counted in pre_false and not judged",
+                         "executable contract of contracts/c07_rectify.py and by equality with the original layout; cases that do not "
+                         "satisfy `requires` are counted in pre_false and not judged",
                  "distinct_nontrivial": stats["with_two_or_more_tags"], "samples": [], "failed": failed,
                  "wall_s": round(time.time() - t0, 2)}, **stats)
 
@@ -358,13 +376,9 @@ def _nested_if_templates():
 
 def rectify_call_sites(tier, seed):
     """BOUNDED: every REAL call of _rectify_templated_slices made by JinjaTemplater.process_with_variants over generated templates
-    (a spy on the real function): for templates WITHOUT a `for` loop the call must satisfy `requires` (so the theorem above applies
-    to it) and `ensures`; for templates with loops the fraction of calls that satisfy `requires` is reported (they revisit slices:
-    the known finding C07/jinja/valid[literal-text-equal])."""
-    import random
+    (a spy on the real function), with and without `for` loops: the call must satisfy `requires` (so the theorem above applies to it)
+    and `ensures`; every variant of every template must satisfy contracts.c07.valid."""
     import time
-    from . import c07_bounded as B
-    from sqlfluff.core.templaters.jinja import JinjaTemplater
     t0 = time.time()
     with _fast_shift():
         return _rectify_call_sites(tier, seed, t0)
@@ -407,24 +421,22 @@ def _rectify_call_sites(tier, seed, t0):
             except Exception:
                 not_rendered += 1
                 continue
-            if not B.has_loop(s):
-                # the property itself (contracts.c07.valid, by conjunct) on every variant of a loop-free template of this run
-                for vi, (tf, _errs) in enumerate(variants):
-                    if tf is None:
-                        continue
-                    n_variants_judged[0] += 1
-                    for cname, holds in B.conjuncts(tf):
-                        if not holds:
-                            fid = f"C07/rectify/call-site/valid[{cname}][template-without-loop]"
-                            curv = invalid.get(fid)
-                            if curv is None or (len(s), s) < (len(curv["witness"]), curv["witness"]):
-                                invalid[fid] = dict({"witness": s, "variant": vi, "n_variants": len(variants), "conjunct": cname},
-                                                    **B._describe(tpl, cfg, s, cname))
+            # the property itself (contracts.c07.valid, by conjunct) on every variant of every template of this run
+            for vi, (tf, _errs) in enumerate(variants):
+                if tf is None:
+                    continue
+                n_variants_judged[0] += 1
+                for cname, holds in B.conjuncts(tf):
+                    if not holds:
+                        fid = f"C07/rectify/call-site/valid[{cname}]"
+                        curv = invalid.get(fid)
+                        if curv is None or (len(s), s) < (len(curv["witness"]), curv["witness"]):
+                            invalid[fid] = dict({"witness": s, "variant": vi, "n_variants": len(variants), "conjunct": cname},
+                                                **B._describe(tpl, cfg, s, cname))
     finally:
         JinjaTemplater._rectify_templated_slices = real
-    stats = {"without-loop": {"calls": 0, "requires_holds": 0, "two_or_more_deltas": 0},
-             "with-loop": {"calls": 0, "requires_holds": 0, "two_or_more_deltas": 0}}
-    fails, classes = {}, {}
+    stats = {"calls": len(calls), "calls_of_templates_with_loops": 0, "two_or_more_deltas": 0, "slices_not_in_source_order": 0}
+    fails = {}
 
     def fail(fid, template, d, sl, res, why):
         curf = fails.get(fid)
@@ -433,87 +445,79 @@ def _rectify_call_sites(tier, seed, t0):
                           "sliced_template": [(x.slice_type, x.source_slice.start, x.source_slice.stop) for x in sl],
                           "result": None if res is None else [(x.source_slice.start, x.source_slice.stop) for x in res]}
     for template, d, sl, res, err in calls:
-        part = "with-loop" if B.has_loop(template) else "without-loop"
-        st = stats[part]
-        st["calls"] += 1
-        st["two_or_more_deltas"] += len(d) >= 2
+        stats["calls_of_templates_with_loops"] += B.has_loop(template)
+        stats["two_or_more_deltas"] += len(d) >= 2
+        stats["slices_not_in_source_order"] += any(sl[k].source_slice.stop > sl[k + 1].source_slice.start for k in range(len(sl) - 1))
         try:
             pre = bool(c.requires(d, sl))
-        except Exception as e:
+        except Exception:
             pre = False
         if not pre:
-            if part == "without-loop":
-                # which clause of `requires` fails (so that one registered class cannot hide another)
-                if not (all(k >= 0 for k in d) and ordered(sl) and all(x.source_slice.start >= 0 for x in sl)):
-                    why = "slices-not-ordered"
-                elif any(all(x.source_slice.start != k + shift(d, k) for x in sl) for k in d):
-                    why = "overridden-tag-not-traced"       # a key of length_deltas whose tag no slice of the trace starts at
-                else:
-                    why = "other"
-                classes[why] = classes.get(why, 0) + 1
-                fail(f"C07/rectify/call-site/requires[template-without-loop][{why}]", template, d, sl, res,
-                     "a real call does not satisfy the precondition under which _rectify_templated_slices is proved")
+            # which clause of `requires` fails (so that one registered class cannot hide another)
+            if not all(k >= 0 for k in d):
+                why = "negative-key"
+            elif not tags_keep_order(d):
+                why = "tags-out-of-order"
+            else:
+                why = "boundary-inside-modified-tag"
+            fail(f"C07/rectify/call-site/requires[{why}]", template, d, sl, res,
+                 "a real call does not satisfy the precondition under which _rectify_templated_slices is proved")
             continue
-        st["requires_holds"] += 1
         if res is None:
-            fail(f"C07/rectify/call-site/no-raise[template-{part}]", template, d, sl, res, err)
+            fail("C07/rectify/call-site/no-raise", template, d, sl, res, err)
             continue
         try:
             ok, why = bool(c.ensures(d, sl, res)), "ensures is false on a real call that satisfies requires"
         except Exception as e:
             ok, why = False, f"ensures raised {e!r}"
         if not ok:
-            fail(f"C07/rectify/call-site/ensures[template-{part}]", template, d, sl, res, why)
+            fail("C07/rectify/call-site/ensures", template, d, sl, res, why)
     fails.update(invalid)
     failed = [{"name": fid, "id": fid, "kind": "bounded", "status": "failed", "function": KEY, "detail": dd, "reproduced": True}
               for fid, dd in sorted(fails.items())]
-    frac = {k: (round(v["requires_holds"] / v["calls"], 4) if v["calls"] else None) for k, v in stats.items()}
     n_tpl = len(dict.fromkeys(templates))
-    return {"name": "rectify-call-sites",
-            "bound": f"{n_tpl} templates: nested / chained if-elif-else over 6 conditions (1-3 overridden tags, deltas of both signs), the "
-                     f"deterministic core of contracts/c07_bounded.py and {n_random} seeded templates of its grammar (depth 2-3)",
-            "rule": "one evaluation = one real call of JinjaTemplater._rectify_templated_slices observed during process_with_variants; "
-                    "loop-free templates: requires and ensures of contracts/c07_rectify.py must hold, and every variant of the template "
-                    "must satisfy contracts.c07.valid; templates with `for`: ensures is judged only where requires holds, the fraction "
-                    "is reported",
-            "evaluations": len(calls), "distinct_nontrivial": stats["without-loop"]["two_or_more_deltas"], "templates": n_tpl,
-            "templates_not_rendered": not_rendered, "variants_of_loop_free_templates_judged_by_valid": n_variants_judged[0], "calls": stats, "requires_failure_classes_without_loop": classes, "fraction_of_calls_satisfying_requires": frac,
-            "samples": [], "failed": failed, "wall_s": round(time.time() - t0, 2)}
+    return dict({"name": "rectify-call-sites",
+                 "bound": f"{n_tpl} templates: nested / chained if-elif-else over 6 conditions (1-3 overridden tags, deltas of both signs, "
+                          f"empty if-bodies), the deterministic core of contracts/c07_bounded.py and {n_random} seeded templates of its "
+                          "grammar (depth 2-3; `for` loops included)",
+                 "rule": "one evaluation = one real call of JinjaTemplater._rectify_templated_slices observed during "
+                         "process_with_variants: requires and ensures of contracts/c07_rectify.py must hold; every variant of every "
+                         "template must satisfy contracts.c07.valid",
+                 "evaluations": len(calls), "distinct_nontrivial": stats["two_or_more_deltas"], "templates": n_tpl,
+                 "templates_not_rendered": not_rendered, "variants_judged_by_valid": n_variants_judged[0],
+                 "samples": [], "failed": failed, "wall_s": round(time.time() - t0, 2)}, **stats)
 
 
 _F = "sqlfluff/core/templaters/jinja.py"
 MUTANTS = [
-    # the essence of seeded C07_A: the delta key (ORIGINAL coordinates) is compared with the position in the MODIFIED template
-    ("rectify_positional_match", _F, "                if idx == tfs.source_slice.start + carried_delta:", "                if idx == tfs.source_slice.start:"),
-    ("rectify_plus_d", _F, "                                tfs.source_slice.stop + carried_delta - d,", "                                tfs.source_slice.stop + carried_delta + d,"),
-    ("rectify_delta_on_start_too", _F, "                                tfs.source_slice.start + carried_delta,\n                                tfs.source_slice.stop + carried_delta - d,",
-     "                                tfs.source_slice.start + carried_delta - d,\n                                tfs.source_slice.stop + carried_delta - d,"),
-    ("rectify_pop_skipped", _F, "                    delta_stack.pop(0)\n", "                    pass\n"),
-    ("rectify_pop_wrong_end", _F, "                    delta_stack.pop(0)\n", "                    delta_stack.pop()\n"),
-    ("rectify_stack_not_sorted", _F, "        delta_stack = sorted(length_deltas.items(), key=lambda t: t[0])", "        delta_stack = list(length_deltas.items())"),
-    ("rectify_carried_not_updated", _F, "                    carried_delta -= d\n", "                    pass\n"),
-    ("rectify_carried_wrong_sign", _F, "                    carried_delta -= d\n", "                    carried_delta += d\n"),
-    ("rectify_templated_slice_lost", _F, "            # No delta match. Just shift evenly.\n            adjusted_slices.append(\n                tfs._replace(\n",
-     "            # No delta match. Just shift evenly.\n            adjusted_slices.append(\n                tfs._replace(\n                    templated_slice=slice(tfs.templated_slice.start, tfs.templated_slice.start),\n"),
+    # the essence of the retired seeded change C07_A: a delta key (ORIGINAL coordinates) used as a position of the MODIFIED template
+    ("rectify_positional_match", _F, "            modified_tags.append((idx + carried_delta, d))", "            modified_tags.append((idx, d))"),
+    ("rectify_wrong_sign", _F, "                        stop - sum(d for pos, d in modified_tags if pos < stop),",
+     "                        stop + sum(d for pos, d in modified_tags if pos < stop),"),
+    ("rectify_le_instead_of_lt", _F, "                        start - sum(d for pos, d in modified_tags if pos < start),",
+     "                        start - sum(d for pos, d in modified_tags if pos <= start),"),
+    ("rectify_stop_shifted_like_start", _F, "                        stop - sum(d for pos, d in modified_tags if pos < stop),",
+     "                        stop - sum(d for pos, d in modified_tags if pos < start),"),
+    ("rectify_filter_dropped", _F, "                        stop - sum(d for pos, d in modified_tags if pos < stop),",
+     "                        stop - sum(d for pos, d in modified_tags),"),
+    ("rectify_deltas_not_sorted", _F, "        for idx, d in sorted(length_deltas.items(), key=lambda t: t[0]):", "        for idx, d in list(length_deltas.items()):"),
+    ("rectify_carried_not_accumulated", _F, "            carried_delta += d\n", "            carried_delta = d\n"),
+    ("rectify_carried_wrong_sign", _F, "            carried_delta += d\n", "            carried_delta -= d\n"),
+    ("rectify_templated_slice_lost", _F, "                tfs._replace(\n                    source_slice=slice(\n                        start - sum(",
+     "                tfs._replace(\n                    templated_slice=slice(tfs.templated_slice.start, tfs.templated_slice.start),\n"
+     "                    source_slice=slice(\n                        start - sum("),
 ]
 
 TRUSTED = [
     "builtins.sorted(list, key) (stable permutation ordered by key) and dict.items() (an enumeration of the dict without repetition, "
     "order not modelled): assumed engine models",
-    "the precondition of _rectify_templated_slices (ordered slices; every overridden tag is exactly one slice of the modified "
-    "template's trace) is NOT proved of the caller _handle_unreached_code / JinjaTracer: it is checked on every real call made over "
-    "the bounded template grammar (BOUNDED rectify-call-sites).  For templates without `for` it holds on every observed call except "
-    "one class, a genuine defect of the caller: an `if` / `elif` tag with an EMPTY body in front of the branch that holds the "
-    "uncovered code is overridden with the wrong constant (`options[0] == branch + 1` cannot tell the body from the next tag), the "
-    "variant never reaches the other overridden tags, their deltas stay on the stack and every later slice is mapped to the wrong "
-    "source text (ids C07/rectify/call-site/requires[template-without-loop][overridden-tag-not-traced] and "
-    "C07/rectify/call-site/valid[literal-text-equal][template-without-loop])",
+    "the precondition of _rectify_templated_slices (keys >= 0; modified tags keep the order of the original ones; no slice boundary in "
+    "the part (m, m + delta] of a modified tag) is NOT proved of the caller _handle_unreached_code / JinjaTracer: it is checked on every "
+    "real call made over the bounded template grammar (BOUNDED rectify-call-sites: holds on every observed call, loops included)",
 ]
 NOT_COVERED = [
-    "_rectify_templated_slices on templates with `for` loops: the trace revisits slices, the precondition fails on part of the real "
-    "calls (fraction reported by BOUNDED rectify-call-sites) and the function's result is then not a map into the original file "
-    "(known finding C07/jinja/valid[literal-text-equal])",
-    "JinjaTemplater._handle_unreached_code itself (deep copies of tracers, jinja rendering): bounded only",
+    "JinjaTemplater._handle_unreached_code itself (deep copies of tracers, jinja rendering, the choice of the constants that override "
+    "the if / elif tags): bounded only",
 ]
 
 BOUNDED = [rectify_generated_layouts, rectify_call_sites]
